@@ -581,6 +581,27 @@ impl<'de> serde::Deserializer<'de> for &'de Value {
             };
             return visitor.visit_bytes(binary);
         }
+        if name == crate::serde::rawnumber::TOKEN {
+            use crate::JsonValueTrait;
+            // the target is a `RawNumber`: give it the text of a number (or of a string holding
+            // one, as the text deserializer does)
+            if let Some(raw) = self.as_raw_number() {
+                return visitor.visit_str(raw.as_str());
+            }
+            if let Some(num) = self.as_number() {
+                return visitor.visit_str(&num.to_string());
+            }
+            if let Some(raw) = self
+                .as_str()
+                .and_then(|s| crate::from_str::<crate::RawNumber>(s).ok())
+            {
+                return visitor.visit_str(raw.as_str());
+            }
+            return Err(serde::de::Error::invalid_type(
+                self.unexpected(),
+                &"a JSON number",
+            ));
+        }
         visitor.visit_newtype_struct(self)
     }
 
